@@ -19,6 +19,10 @@ VERIF = os.path.dirname(os.path.dirname(os.path.abspath(__file__)))
 JAR = "/opt/veriftools/tla/tla2tools.jar:/opt/veriftools/tla/CommunityModules-deps.jar"
 
 
+import threading as _threading
+_scratch_lock = _threading.Lock()
+
+
 class Infra(Exception):
     """Infrastructure failure: exit 2, never a VIOLATION."""
 
@@ -137,8 +141,10 @@ class Ctx:
 
     # ------------------------------------------------------------------ TLC
     def _scratch(self, name):
-        self.ntlc += 1
-        d = os.path.join(self.out, "tlc", "%02d-%s" % (self.ntlc, name))
+        with _scratch_lock:
+            self.ntlc += 1
+            n = self.ntlc
+        d = os.path.join(self.out, "tlc", "%02d-%s" % (n, name))
         os.makedirs(d)
         for f in glob.glob(os.path.join(VERIF, "spec", "*.tla")) + glob.glob(os.path.join(VERIF, "spec", "*.cfg")):
             shutil.copy(f, d)
